@@ -36,6 +36,12 @@ PANIC_CALLS = {
 }
 
 
+def _kname(fn):
+    """function name for semantic keys: closure ordinals are dropped (they shift when an unrelated closure is added)"""
+    import re as _re
+    return _re.sub(r"\{closure#\d+\}", "{closure}", mir.norm(fn))
+
+
 def entries(u):
     out = []
     for p, b in u.bodies.items():
@@ -677,7 +683,7 @@ def check(prog, run):
             l = lem.try_discharge(ob, cxs)
             if l:
                 ob.status, ob.how = "D3", l
-        base = "%s %s %s" % (mir.norm(ob.fn), ob.kind, ob.desc)
+        base = "%s %s %s" % (_kname(ob.fn), ob.kind, ob.desc)
         seen[base] = seen.get(base, 0) + 1
         key = base + (" #%d" % seen[base] if seen[base] > 1 else "")
         counts[ob.status] += 1
@@ -696,7 +702,7 @@ def check(prog, run):
             if l:
                 cls, why = "L3", l
         lcount[cls] = lcount.get(cls, 0) + 1
-        base = "loop %s" % mir.norm(p)
+        base = "loop %s" % _kname(p)
         seenl[base] = seenl.get(base, 0) + 1
         key = base + " #%d" % seenl[base]
         b = u.bodies[p]
